@@ -197,6 +197,11 @@ def run(rep, tier, seed, summary):
               "device identification, READ FULL STATUS, REPORT PRIORITY, READ ELEMENT STATUS) "
               "vs the code on conformant, truncated, corrupted and random buffers", len(lines), len(bad),
               distribution=dict(raised=sum(1 for r in rr if "exn" in r), buffers=len(raws)))
+    # (3) the regenerated decoder / builder BODIES (Gen/PyFuncs.v under the semantics of Model/Py.v) against the real functions
+    from corr import pyfuncs
+    pybad, _pc, _pr = pyfuncs.run(rep, tier, seed, summary)
+    rep.extra["pyfuncs_unknown"] = summary["pyfuncs"]["unknown"][:60]
+    bad = list(bad) + [("pyfuncs", b) for b in pybad]
     new = [h for h in hits if h["id"] not in known]
     for h in hits:
         if h["id"] in known:
@@ -207,4 +212,4 @@ def run(rep, tier, seed, summary):
     if not new and not all_ok:
         rep.violation("no longer shown to hold: " + "; ".join(n for n, okk, _ in rep.obligations if not okk),
                       dict(kind="broken-obligation", obligations=[o for o in rep.obligations if not o[1]],
-                           mismatching_cases=[dict(call=raws[j][0], args=raws[j][1], data=raws[j][2], impl=rr[j]) for j in bad[:3]]), False)
+                           mismatching_cases=[(dict(call=raws[j][0], args=raws[j][1], data=raws[j][2], impl=rr[j]) if isinstance(j, int) else j[1]) for j in bad[:3]]), False)
